@@ -150,6 +150,8 @@ def discharge(P, s):
                     base = B.peel(base)
                     if base.op == "param" and R.len_at_least(lits, base.a[1], ci + 1):
                         return ("len-guard", "dominated by len(%s) >= %d" % (base.a[1], ci + 1))
+                    if f.kind == "Closure" and base.op == "param" and _closure_param_chunk_len(P, f, base) is not None and ci < _closure_param_chunk_len(P, f, base):
+                        return ("chunk-len", "closure parameter is a chunk/window of fixed length %d, index %d is in bounds" % (_closure_param_chunk_len(P, f, base), ci))
                     if ci == 0 and f.kind == "Closure" and _closure_runs_on_element_of(P, f, base):
                         return ("iter-nonempty", "the closure only runs for an element of the same slice, so the slice is non-empty and index 0 exists")
                     if base.op == "param":
@@ -225,6 +227,11 @@ def discharge(P, s):
             if rn == "Range":
                 # buf[n .. n+L] dominated by L <= len(buf) - n
                 st, en = ops
+                ab = _binop(en, ("AddWithOverflow", "Add", "AddUnchecked"))
+                if ab and st in ab:
+                    other = ab[1] if ab[0] == st else ab[0]
+                    if _clamped_to_len_minus(other, buf, st):
+                        return ("clamp", "slice buf[n..n+min(L, len(buf)-n)] is in bounds by construction")
                 for atom, pol in lits:
                     if atom[0] == "atom" and atom[1] == "cmp":
                         op, x, y = atom[2], atom[3], atom[4]
@@ -238,6 +245,10 @@ def discharge(P, s):
         r = _copy_len_ok(ev, f, b, dst, src, lits)
         if r:
             return r
+    if k in ("call:chunks", "call:step_by") and site is not None and len(site.args) == 2:
+        c = B._const_int(site.args[1])
+        if c is not None and c >= 1:
+            return ("const", "chunk/step size is the non-zero constant %d" % c)
     if k == "call:vec-insert" and site is not None and len(site.args) == 3:
         if B._const_int(site.args[1]) == 0:
             return ("const", "insert at index 0 is always in bounds")
@@ -302,6 +313,24 @@ def _byte_xor_callers(P, f):
     return ("callers", "every crate-local caller passes two byte strings of equal length (keystream buffer allocated with the payload's length; 32-byte digest against a 32-byte repr/array)")
 
 
+def _closure_param_chunk_len(P, clo, base):
+    """If the closure is applied to the items of slice.chunks_exact(k) / windows(k) / array_chunks, return k."""
+    parent = P.fns.get(clo.j.get("parent_key"))
+    if parent is None or base.a[0] != 2:
+        return None
+    pev = evaluate(parent)
+    for bb, st in pev.sites.items():
+        if len(st.args) == 2:
+            c = B.peel(st.args[1])
+            if c.op == "agg" and c.a[0][0] == "closure" and c.a[0][1] == clo.key:
+                for x in subterms(strip_sites(st.args[0])):
+                    if x.op == "call" and B.cname(x) in ("slice::<impl [T]>::chunks_exact", "slice::<impl [T]>::windows", "slice::<impl [T]>::rchunks_exact") and len(x.a[1]) == 2:
+                        k = B._const_int(x.a[1][1])
+                        if k:
+                            return k
+    return None
+
+
 def _closure_runs_on_element_of(P, clo, base):
     """clo is passed to an iterator adapter over the very slice it captured (and indexes)."""
     parent = P.fns.get(clo.j.get("parent_key"))
@@ -343,6 +372,13 @@ def _is_len_minus(t, buf, n):
     if ab:
         l = B.peel(ab[0])
         return l.op == "call" and B.cname(l) in ("Vec::<T, A>::len", "slice::<impl [T]>::len") and B.peel(l.a[1][0]) == buf and ab[1] == n
+    return False
+
+
+def _clamped_to_len_minus(t, buf, n):
+    t = B.peel(t)
+    if t.op == "call" and B.cname(t) in ("core::min", "Ord::min", "core::cmp::min") and len(t.a[1]) == 2:
+        return any(_is_len_minus(B.peel(x), buf, n) for x in t.a[1])
     return False
 
 
@@ -411,6 +447,11 @@ def _interval_ok(P, f, ev, b, t, ops, lits):
                 op = atom[2] if pol else R._NEG[atom[2]]
                 if op == "Le" and atom[3] in o and atom[4].op == "field" and atom[4].a[0].op == "bin" and atom[4].a[0].a[0] == "SubWithOverflow" and atom[4].a[0].a[2] in o:
                     return ("interval", "n + L with L <= len - n cannot overflow")
+        for x in o:
+            other = o[1] if x is o[0] else o[0]
+            om = B.peel(other)
+            if om.op == "call" and B.cname(om) in ("core::min", "Ord::min") and any(_binop(B.peel(y), ("SubWithOverflow", "Sub")) and _binop(B.peel(y), ("SubWithOverflow", "Sub"))[1] == x for y in om.a[1]):
+                return ("interval", "n + min(L, len - n) <= len cannot overflow")
         if all(_is_len_like(x) for x in o):
             return ("interval", "sum of two lengths of live allocations (< isize::MAX each) cannot overflow usize")
         # i + 1 for an enumerate index
